@@ -76,6 +76,12 @@ def gen_case(rng, tier):
                             odd_classes=0.6 if channel in ("zip_nt", "xz_nt", "gz_nt") else 0.1)
     tp = gen.CUSTOM_TYPE if rng.random() < 0.12 else gen.RDF_TYPE
     triples = gen.retype(gen.ensure_class(triples), tp)
+    # sometimes two classes of different vocabularies share their local name (ex:C0 / oth:C0): their shape labels collide
+    # and one of them must be disambiguated - the same way in every interpreter (decided without drawing from `rng`)
+    r3 = random.Random("C19-samelocal|%r" % (triples[:30],))
+    if r3.random() < 0.12 and {gen.iri(gen.EX + "C0"), gen.iri(gen.EX + "C1")} <= {t[2] for t in triples}:
+        a, b = gen.iri(gen.EX + "C1"), gen.iri(gen.OTHER + "C0")
+        triples = [tuple(b if x == a else x for x in t) for t in triples]
     allow_sm = channel in ("nt", "endpoint_on", "endpoint_off", "shape_map_local", "rdflib_graph")
     if channel == "nt_mixed":
         # plain node selectors need no query (nothing passes through the rdflib store), all_classes_mode adds every
